@@ -12,20 +12,23 @@ THEOREMS = ["BeyondVerif.C01." + t for t in (
     "cart_cyl_cart cyl_cart_cyl cart_sph_cart sph_cart_sph kepl_circ_kepl circ_kepl_circ mean_mcirc_mean mcirc_mean_mcirc "
     "mean_tle_mean tle_mean_tle kepl_equi_kepl equi_kepl_equi kepl_ecc_kepl_elliptic ecc_kepl_ecc_elliptic "
     "kepl_ecc_kepl_hyperbolic ecc_kepl_ecc_hyperbolic m2eLoop_exit m2e_residual_elliptic mean_ecc_mean_elliptic "
-    "ecc_mean_ecc_elliptic m2e_residual_hyperbolic_partial keplToCart_respects_angEq keplToCirc_respects_angEq "
+    "ecc_mean_ecc_elliptic m2e_exit m2e_reduction_elliptic m2e_residual_hyperbolic mean_ecc_mean_hyperbolic ecc_mean_ecc_hyperbolic mean_mcirc_mean_hyperbolic keplToCart_respects_angEq keplToCirc_respects_angEq "
     "edge_methods_are_links forms_walk_unique infos_fpa_components_unit infos_fpa_tan infos_visviva_energy infos_period "
-    "infos_apsides infos_hyperbolic keplToCart_radius_speed_momentum kepl_cart_kepl_partial").split()] + [
-    "BeyondVerif.C01W.m2e_start_overflows", "BeyondVerif.C01W.mean_circular_shifts_hyperbolic_M"]
-LEVEL_TEXT = ("Lean theorems over R about the 17 edge functions, the M2E start/update/exit test and the Infos formulas translated from forms.py / "
-              "statevector.py on every run (py2lean): round trips of 8 of the 9 links in both directions (cyl, sph, circular, mean-circular, TLE, "
-              "equinoctial, true<->eccentric/hyperbolic anomaly) for all inputs in the stated domains, angles as points of the circle and exact inside "
-              "one turn; Kepler-equation residual and eccentric<->mean round trip within 2 tol (1+e)/(1-e) for every fuel and start branch; "
-              "keplerian->cartesian invariant under the circle relation; routing = unique tree walk (C20 on the regenerated graph); Infos relations "
-              "(fpa components unit, vis-viva/energy, period, apsides, hyperbolic). Differential correspondence of every edge, M2E, Infos and "
-              "StateVector.copy along the routed walk against the compiled Lean model.")
-LEVEL_NOTE = ("proof (partial): the keplerian<->cartesian round trip itself and the hyperbolic residual at the returned value are NOT proved "
-              "beyond a, e, i, node (oracle + correspondence only); R -> double gap covered by tolerance-bounded correspondence; two open findings (hyperbolic M2E "
-              "overflow, mean-circular form wraps a hyperbolic M); Lean kernel + propext/Classical.choice/Quot.sound; py2lean translator trusted")
+    "infos_apsides infos_hyperbolic keplToCart_radius_speed_momentum keplToCart_dot_node kepl_cart_kepl cart_kepl_cart_of_image walk_roundtrip_exact walk_roundtrip_cyl_sph").split()] + [
+    "BeyondVerif.C01W.m2e_start_clamped", "BeyondVerif.C01W.mean_circular_keeps_hyperbolic_M"]
+LEVEL_TEXT = ("Lean theorems over R about the 17 edge functions, the M2E reduction/start/update/exit test/return and the Infos formulas translated from "
+              "forms.py / statevector.py on every run (py2lean): round trips of all 9 links in both directions for all inputs in the stated domains "
+              "(cyl, sph, circular, mean-circular incl. hyperbolic M exact, TLE, equinoctial, true<->eccentric/hyperbolic anomaly, keplerian->cartesian->"
+              "keplerian in full, cartesian->keplerian->cartesian on every state that is the view of elements in the domain), angles as points of the "
+              "circle and exact inside one turn; Kepler-equation residual at the returned value for both conics (2 tol (1+e) / 8 e cosh H tol^2) and "
+              "eccentric<->mean round trips, for every fuel, every M and every start branch; keplerian->cartesian invariant under the circle relation and "
+              "definition-true (radius, vis-viva, angular momentum, r.v, node-line component); routing = unique tree walk (C20), walk round trip by "
+              "induction over the path (exact form); Infos relations. Differential correspondence of every edge, M2E, Infos and StateVector.copy "
+              "along the routed walk against the compiled Lean model.")
+LEVEL_NOTE = ("proof (partial): not proved are (1) that every cartesian state with h != 0, sin i != 0, e != 0 is the view of some elements (so "
+              "cartesian->keplerian->cartesian is proved on the image of keplerian->cartesian only), (2) termination of the Kepler loop (fuel; covered by "
+              "correspondence with fuel 10^4 and a watchdog oracle), (3) the walk round trip for links that return angles modulo 2 pi as one statement; "
+              "R -> double gap covered by tolerance-bounded correspondence; Lean kernel + propext/Classical.choice/Quot.sound; py2lean translator trusted")
 TECHNIQUE = "Lean 4 proof over edge formulas translated from the Python AST (py2lean) on every run; differential correspondence per edge; API oracle"
 TRUSTED = [
     "harness/py2lean.py translate_fn/translate_expr: Python AST of the 17 `_a_to_b` methods, M2E pieces and 13 Infos properties -> Generated/Forms{F,R}.lean on every run",
@@ -40,15 +43,16 @@ ASSUMPTIONS = [
     "angles are compared as points of the circle (same cos and sin); equality of numbers is proved inside the turn the code itself returns",
 ]
 NOT_COVERED = [
-    "keplerian <-> cartesian round trip in full: proved are radius, vis-viva speed and angular-momentum vector of keplerian->cartesian, recovery of a, e, i and of the node (kepl_cart_kepl_partial) and invariance under the circle relation; recovery of perigee/anomaly and cartesian->keplerian->cartesian are checked by the oracle on the real API and by correspondence only",
+    "cartesian -> keplerian -> cartesian for an ARBITRARY cartesian state: proved on the image of keplerian->cartesian (cart_kepl_cart_of_image); existence of elements for every state with h != 0, sin i != 0, e != 0 is not proved (oracle: independent textbook elements + round trips on the real API)",
+    "termination of the Kepler iteration (the model carries fuel; the code's loop is unbounded): correspondence with fuel 10^4 on all start branches and up to 60 revolutions, watchdog oracle incl. the pinned former non-returning inputs",
     "definition-truth of cartesian->keplerian (a from energy, e = |eccentricity vector|, node, perigee) is checked by the oracle against an independent numpy computation, not proved",
     "spherical rates as time derivatives (HasDerivAt) not proved; oracle uses central differences",
     "conditioning near e->0, i->0, e->1 (excluded by the quantifier); rounding",
 ]
 OPEN = [
-    "kepl_cart round trip: kepl_cart_kepl proved for a, e, i, node only (_partial); omega/nu part and cart_kepl_cart not proved",
-    "hyperbolic Kepler residual at the returned value (m2e_residual_hyperbolic_partial bounds it at the last iterate only); hyperbolic eccentric<->mean round trip",
-    "walk_roundtrip as a single induction over the routed path (the per-link theorems and the uniqueness of the walk are proved separately)",
+    "surjectivity of keplerian->cartesian onto the non-degenerate cartesian states (would turn cart_kepl_cart_of_image into the unconditional statement)",
+    "termination of Form.M2E as a theorem (exists fuel, m2e fuel e M != none) for 0 <= e < 1 after the reduction of b41fd8b, and for e > 1",
+    "walk_roundtrip for paths through links that return angles as circle points: walk_roundtrip_exact is the induction over the path for links with exact round trips; the AngEq version needs 'respects AngEq' for all 18 edges (proved for keplerian->cartesian and keplerian->circular)",
 ]
 RULE = ("correspondence: 2500 (quick) / 40000 (thorough) orbits, alternating ellipse/hyperbola, e in [1e-4,0.99] u [1.001,20], i in [0.01,pi-0.01], "
         "any node/perigee, anomalies incl. M<0, M>2pi, |H|<=8, three bodies; every one of the 18 edge methods on each orbit, StateVector.copy along the "
@@ -108,13 +112,51 @@ def gen_anomaly(rng, hyper, e):
         H = rng.uniform(-8, 8) if rng.random() < 0.7 else rng.uniform(-1.5, 1.5)
         return e * math.sinh(H) - H, H
     r = rng.random()
-    if r < 0.5:
+    if r < 0.12:
+        E = rng.uniform(-60, 60) * TWO_PI     # many revolutions away (the reduction of fix b41fd8b)
+    elif r < 0.5:
         E = rng.uniform(0, TWO_PI)
     elif r < 0.75:
         E = rng.uniform(-TWO_PI, 0)          # M < 0
     else:
         E = rng.uniform(TWO_PI, 2 * TWO_PI)  # M > 2 pi
     return E - e * math.sin(E), E
+
+
+class Hang(Exception):
+    pass
+
+
+class watchdog:
+    """raise Hang in the main thread if the body runs longer than `seconds` (Form.M2E used not to return for some inputs)"""
+
+    def __init__(self, seconds=2.0):
+        self.s = seconds
+
+    def __enter__(self):
+        import signal
+
+        def h(*a):
+            raise Hang()
+        self.old = signal.signal(signal.SIGALRM, h)
+        signal.setitimer(signal.ITIMER_REAL, self.s)
+
+    def __exit__(self, *a):
+        import signal
+        signal.setitimer(signal.ITIMER_REAL, 0)
+        signal.signal(signal.SIGALRM, self.old)
+        return False
+
+
+def guarded_m2e(e, M):
+    """Form.M2E(e, M) as a float, or None if it does not return within 2 s"""
+    import numpy as np
+    from beyond.orbits.forms import Form
+    try:
+        with watchdog(2.0), np.errstate(all="ignore"):
+            return float(Form.M2E(e, M))
+    except Hang:
+        return None
 
 
 def nu_from_anomaly(hyper, e, EH):
@@ -141,7 +183,8 @@ def truth_cartesian(mu, a, e, i, Om, om, nu):
 
 
 def start_value(e, M):
-    """the start value the current M2E uses for a hyperbolic orbit (forms.py) — only used to name the failure family"""
+    """the UNCLAMPED start value of M2E for a hyperbolic orbit (what the code used before fix 31f549a clamps |H| > 30 to
+    the asymptotic solution) — only used to name the failure family should the overflow return"""
     if e < 1.6:
         return M - e if (-math.pi < M < 0 or M > math.pi) else M + e
     if e < 3.6 and abs(M) > math.pi:
@@ -151,6 +194,7 @@ def start_value(e, M):
 
 def branch(e, M):
     if e < 1:
+        M = M - TWO_PI * math.floor((M + math.pi) / TWO_PI)   # the reduction of fix b41fd8b
         return "ell-minus" if (-math.pi < M < 0 or M > math.pi) else "ell-plus"
     if e < 1.6:
         return "hyp-lt1.6-minus" if (-math.pi < M < 0 or M > math.pi) else "hyp-lt1.6-plus"
@@ -378,15 +422,28 @@ def oracle(ctx, widened):
     for _ in range(N):
         k, hyper, a, e, i, Om, om = gen_elements(rng)
         M, EH = gen_anomaly(rng, hyper, e)
-        orbit_checks(out, frs[k], k, hyper, a, e, i, Om, om, M, EH)
+        try:
+            with watchdog(10.0):
+                orbit_checks(out, frs[k], k, hyper, a, e, i, Om, om, M, EH)
+        except Hang:
+            out.fail("m2e-elliptic-no-return" if not hyper else "m2e-hyperbolic-no-return", "a conversion of this state does not return within 10 s (Kepler loop)",
+                     {"body": frs[k].center.body.name, "a": a, "e": e, "i": i, "Omega": Om, "omega": om, "M": M, "E_or_H": EH})
     # 4. Kepler equation through the public helper, all start branches, incl. the overflow region named by lead 18
-    for _ in range(2000 if big else 300):
-        hyper = rng.random() < 0.5
-        e = (1.001 + rng.random() ** 2 * 18.999) if hyper else rng.uniform(1e-4, 0.99)
-        M, EH = gen_anomaly(rng, hyper, e)
-        with np.errstate(all="ignore"):
-            got = float(Form.M2E(e, M))
-        out.count(key=("m2e", e, M), kind="M2E", m2e=branch(e, M))
+    pinned = [(False, 0.826, 25.953, None), (False, 0.9, 100 * math.pi + 0.3, None), (False, 0.97, -31.0, None), (True, 1.2, 720.0, None)]
+    cases = pinned + [None] * (2000 if big else 300)
+    for c in cases:
+        if c is None:
+            hyper = rng.random() < 0.5
+            e = (1.001 + rng.random() ** 2 * 18.999) if hyper else rng.uniform(1e-4, 0.99)
+            M, EH = gen_anomaly(rng, hyper, e)
+        else:
+            hyper, e, M, EH = c
+        got = guarded_m2e(e, M)
+        out.count(key=("m2e", e, M), kind="M2E", m2e=branch(e, M), revolutions="|M|>2pi" if abs(M) > TWO_PI else "|M|<=2pi")
+        if got is None:
+            out.fail("m2e-elliptic-no-return" if not hyper else "m2e-hyperbolic-no-return", "Form.M2E does not return (Newton iteration cycles or wanders)",
+                     {"e": e, "M": M, "true_E_or_H": EH}, observed="no return within 2 s", expected=EH)
+            continue
         res = (e * math.sinh(got) - got - M) if hyper else (got - e * math.sin(got) - M)
         if not (math.isfinite(got) and abs(res) <= 1e-6 * max(1.0, abs(M))):
             fam = "m2e-hyperbolic-start-overflow" if (hyper and not math.isfinite(got) and abs(start_value(e, M)) > 709.0) else "m2e-residual-" + branch(e, M)
@@ -428,9 +485,10 @@ def rename_ast(nodes, mapping):
 
 
 def m2e_pieces(tree):
-    """Form.M2E: the start-value selection and the Newton update are translated; the loop itself
-    (`X1 = next(X); while abs(X1 - X) >= tol: X = X1; X1 = next(X); return X1`) is checked to have exactly
-    this shape and is written with a fuel argument in lean/templates/Forms.tpl"""
+    """Form.M2E: everything before the Newton update function (reduction of M, start value selection, clamp) and the
+    update itself are translated, as is the final `return` expression; the loop
+    (`X1 = next(X); while abs(X1 - X) >= tol: X = X1; X1 = next(X)`) is checked to have exactly this shape and is written
+    with a fuel argument in lean/templates/Forms.tpl"""
     fn = py2lean.find_function(tree, "Form.M2E")
     body = [s for s in fn.body if not (isinstance(s, ast.Expr) and isinstance(s.value, ast.Constant))]
     if not (len(body) == 2 and isinstance(body[0], ast.Assign) and body[0].targets[0].id == "tol" and isinstance(body[1], ast.If)):
@@ -439,21 +497,30 @@ def m2e_pieces(tree):
     top = body[1]
     test = py2lean.translate_expr(top.test)
     out = {}
-    shapes = []
+    expected = ast.dump(ast.parse("X1 = next_X(X, e, M)\nwhile abs(X1 - X) >= tol:\n    X = X1\n    X1 = next_X(X, e, M)\n"))
     for tag, blk, var, nxt in (("E", top.body, "E", "next_E"), ("H", top.orelse, "H", "next_H")):
-        if not (len(blk) == 5 and isinstance(blk[0], ast.If) and isinstance(blk[1], ast.FunctionDef) and blk[1].name == nxt
-                and isinstance(blk[2], ast.Assign) and isinstance(blk[3], ast.While) and isinstance(blk[4], ast.Return)):
+        k = next((n for n, st in enumerate(blk) if isinstance(st, ast.FunctionDef)), None)
+        if k is None or blk[k].name != nxt or len(blk) != k + 4 or not isinstance(blk[-1], ast.Return):
             raise py2lean.Untranslatable(f"M2E: unexpected shape of the {tag} branch")
-        tr = py2lean.TrFn()
-        tr.defined |= {"e", "M"}
-        out["start" + tag] = tr.stmts([blk[0], ast.Return(value=ast.Name(id=var, ctx=ast.Load()))])
-        nf = blk[1]
+        pre = blk[:k]
+        ret = blk[-1].value
+        free = {n.id for n in ast.walk(ret) if isinstance(n, ast.Name)} - {var + "1"}
+        if len(free) > 1 or not free <= set(py2lean.Tr().assigned(pre)):
+            raise py2lean.Untranslatable(f"M2E: return expression of the {tag} branch uses {sorted(free)}")
+        extra = next(iter(free), None)
+        for key, name in (("start", var), ("red", "M"), ("extra", extra)):
+            if name is None:
+                out[key + tag] = "(0 : R)"
+                continue
+            tr = py2lean.TrFn()
+            tr.defined |= {"e", "M"}
+            out[key + tag] = tr.stmts(list(pre) + [ast.Return(value=ast.Name(id=name, ctx=ast.Load()))])
+        out["finish" + tag] = py2lean.translate_expr(rename_ast([ret], {var + "1": "X1", **({extra: "extra"} if extra else {})})[0])
+        nf = blk[k]
         if [a.arg for a in nf.args.args] != [var, "e", "M"] or len(nf.body) != 1 or not isinstance(nf.body[0], ast.Return):
             raise py2lean.Untranslatable("M2E: unexpected Newton update function")
         out["next" + tag] = py2lean.translate_expr(rename_ast([nf.body[0].value], {var: "X"})[0])
-        shapes.append(ast.dump(ast.Module(body=rename_ast(blk[2:], {var: "X", var + "1": "X1", nxt: "next_X"}), type_ignores=[])))
-    expected = ast.dump(ast.parse("X1 = next_X(X, e, M)\nwhile abs(X1 - X) >= tol:\n    X = X1\n    X1 = next_X(X, e, M)\nreturn X1\n"))
-    for sh in shapes:
+        sh = ast.dump(ast.Module(body=rename_ast(blk[k + 1:-1], {var: "X", var + "1": "X1", nxt: "next_X"}), type_ignores=[]))
         if sh != expected:
             raise py2lean.Untranslatable("M2E: the iteration loop no longer has the modelled shape")
     out["tol"], out["test"] = tol, test
@@ -525,8 +592,12 @@ def extract(ctx):
             edges.append((ln, a, b, True))
     m = m2e_pieces(tree)
     parts.append(f"/-- `tol` of `Form.M2E` -/\ndef m2eTol : R := {m['tol']}\n")
-    parts.append("/-- start value of the Newton iteration in `Form.M2E` (all four branches) -/\ndef m2eStart (e M : R) : R :=\n  if " + m["test"] + " then\n" +
-                 py2lean.indent(m["startE"], 4) + "\n  else\n" + py2lean.indent(m["startH"], 4) + "\n")
+    def two(doc, name, args, a, b):
+        return (f"/-- {doc} -/\ndef {name} ({args} : R) : R :=\n  if " + m["test"] + " then\n" + py2lean.indent(a, 4) + "\n  else\n" + py2lean.indent(b, 4) + "\n")
+    parts.append(two("the mean anomaly the Newton iteration of `Form.M2E` works on (ellipse: reduced to [-pi, pi))", "m2eReduced", "e M", m["redE"], m["redH"]))
+    parts.append(two("what `Form.M2E` adds back to the result of the loop (ellipse: the whole revolutions taken out of M)", "m2eExtra", "e M", m["extraE"], m["extraH"]))
+    parts.append(two("start value of the Newton iteration in `Form.M2E`, as a function of the ORIGINAL arguments (all branches, incl. the clamp)", "m2eStart", "e M", m["startE"], m["startH"]))
+    parts.append(two("the `return` expression of `Form.M2E`", "m2eFinish", "e X1 extra", m["finishE"], m["finishH"]))
     parts.append("/-- `next_E` / `next_H` of `Form.M2E` -/\ndef m2eNext (X e M : R) : R :=\n  if " + m["test"] + " then " + m["nextE"] + "\n  else " + m["nextH"] + "\n")
     parts.append("/-- the `while` test of `Form.M2E` -/\ndef m2eContinue {α : Type} (X1 X : R) (yes no : α) : α :=\n  if (absR (X1 - X)) ≥ m2eTol then yes else no\n")
     svtree = ast.parse(open(SV_PY).read())
@@ -684,8 +755,11 @@ def correspondence(ctx):
                 continue
             pyname = f"_{fa}_to_{fb}"
             c = src[fa]
-            with np.errstate(all="ignore"):
-                real = getattr(Form, pyname)(np.array(c, dtype=float), body)
+            try:
+                with watchdog(2.0), np.errstate(all="ignore"):
+                    real = getattr(Form, pyname)(np.array(c, dtype=float), body)
+            except Hang:
+                real = [float("nan")] * 6
             reqs.append(" ".join(["form", pyname[1:], f2b(mu)] + [f2b(v) for v in c]))
             cond = 1.0
             if hyper and fb == "keplerian_eccentric" and fa == "keplerian":
@@ -708,8 +782,11 @@ def correspondence(ctx):
             if real_steps != meths:
                 out.fail("route-" + fa + "-" + fb, "Form.steps differs from the unique path of the regenerated forms tree", {"src": fa, "dst": fb}, observed=real_steps, expected=meths)
                 continue
-            with np.errstate(all="ignore"):
-                real = arr(sv.copy(form=fb))
+            try:
+                with watchdog(2.0), np.errstate(all="ignore"):
+                    real = arr(sv.copy(form=fb))
+            except Hang:
+                real = [float("nan")] * 6
             reqs.append(" ".join(["walk", f2b(mu)] + [f2b(v) for v in src[fa]] + meths))
             cond = max(1.0, 1e-3 * math.cosh(EH) ** 2) if hyper else 1.0
             if len(meths) > 1:
@@ -722,8 +799,8 @@ def correspondence(ctx):
         hyper = rng.random() < 0.5
         e = (1.001 + rng.random() ** 2 * 18.999) if hyper else rng.uniform(1e-4, 0.99)
         M, EH = gen_anomaly(rng, hyper, e)
-        with np.errstate(all="ignore"):
-            real = float(Form.M2E(e, M))
+        real = guarded_m2e(e, M)
+        real = float("nan") if real is None else real
         reqs.append(" ".join(["m2e", f2b(e), f2b(M)]))
         meta.append(("m2e", real, None, None, hyper, 1.0, {"e": e, "M": M}))
         out.count(key=reqs[-1], kind="m2e", m2e=branch(e, M), finite=math.isfinite(real))
@@ -786,8 +863,11 @@ def replay(f):
     inp = fail.get("input", {})
     from beyond.orbits.forms import Form
     if "e" in inp and "M" in inp and "a" not in inp:
-        with np.errstate(all="ignore"):
-            got = float(Form.M2E(inp["e"], inp["M"]))
+        got = guarded_m2e(inp["e"], inp["M"])
+        if got is None:
+            out.count(key="replay")
+            out.fail(fail["family"], fail["what"], inp, observed="no return within 2 s", expected=fail.get("expected"))
+            return out
         res = inp["e"] * math.sinh(got) - got - inp["M"] if inp["e"] >= 1 else got - inp["e"] * math.sin(got) - inp["M"]
         out.count(key="replay")
         if not (math.isfinite(got) and abs(res) <= 1e-6 * max(1.0, abs(inp["M"]))):
